@@ -55,7 +55,7 @@ class C07(Spec):
     component = 'heap'
     driver = 'heap'
     lib_srcs = ['heap.c', 'common.c', 'bintree.c']
-    header_words = ('keys', 'dumpevery')
+    header_words = ('keys', 'dumpevery', 'cmpmode')
     rule = ('cases = corpus + one case per edge of the breadth-first closure of the Coq model over small element pools '
             'with duplicated keys (shortest path to the state + the operation) + seeded random push/pop/get/size/clear '
             'histories with heavy key duplication, aimed at sizes around powers of two; a case is non-trivial when its '
@@ -162,6 +162,8 @@ class C07(Spec):
         for r in runs:
             c, s = self.bfs(r)
             cases += c
+            # the same model traces against a comparator that returns key differences
+            cases += [Case(x.name + 'd', x.header + ['cmpmode 1'], x.ops, x.origin) for x in c]
             st = dict(states=st['states'] + s.get('states', 0), transitions=st['transitions'] + s.get('transitions', 0),
                       closed=st['closed'] and s.get('closed', False))
         return cases, st
@@ -211,6 +213,7 @@ class C07(Spec):
                         popped = 0
                         rnd.shuffle(free)
         hdr = ['keys ' + ' '.join(map(str, keys[i:i + 48])) for i in range(0, len(keys), 48)]
+        hdr.append('cmpmode %d' % rnd.choice([0, 1, 2]))
         if every > 1:
             hdr.append('dumpevery %d' % every)
         return Case(name, hdr, ops, 'random')
